@@ -578,7 +578,7 @@ def check_batchnorm(res, facts):
     (X w^2, Y w^3) for Jacobian resp. (X w, Y w) for extended Edwards coordinates (compared as polynomials)"""
     from rules.c07 import E, show, qeq, A, C
     from rules.c17 import to_q, NotPoly
-    rule = res.rule("R-BATCHNORM", "normalize_batch: per-point inverse of z, in order; (X/Z^2, Y/Z^3) resp. (X/Z, Y/Z); identity kept", 2)
+    rule = res.rule("R-BATCHNORM", "normalize_batch: per-point inverse of z, in order; (X/Z^2, Y/Z^3) resp. (X/Z, Y/Z); identity kept (supplementary clause: no verdict on shapes it does not model; the per-point kernel is proved under R-POLY.convert)", 0)
     for model, ex, ey in (("short_weierstrass", 2, 3), ("twisted_edwards", 1, 1)):
         fs = [f for f in facts.fns(unit="ws", crate="ark_ec") if f.kind != "Closure" and f.name == "normalize_batch" and ("models::%s::group" % model) in f.id]
         key = "ark_ec|%s::Projective::normalize_batch" % model
@@ -586,28 +586,28 @@ def check_batchnorm(res, facts):
             rule.bad(key, "anchor missing")
             continue
         f = fs[0]
-        problems = []
+        problems, unrec = [], []
         clos = [c for c in facts.fns(unit="ws", crate="ark_ec") if c.kind == "Closure" and c.id.startswith(f.id + "::{closure")]
         zclo = [c for c in clos if E(c, {"c": 0}) == A(2, "z")]
         pclo = [c for c in clos if any(t["f"].get("name") == "new_unchecked" for _, t in c.calls())]
         inv = [t for _, t in f.calls() if t["f"].get("name") == "batch_inversion"]
         zips = [t for _, t in f.calls() if t["f"].get("name") == "zip"]
         if len(zclo) != 1:
-            problems.append("no closure collecting the z coordinate of each point")
+            unrec.append("no closure collecting the z coordinate of each point")
         if len(inv) != 1 or len(zips) != 1:
-            problems.append("expected one batch_inversion and one zip of the points with the inverses")
+            unrec.append("expected one batch_inversion and one zip of the points with the inverses")
         else:
             zs = E(f, inv[0]["args"][0])
             okz = isinstance(zs, tuple) and zs[:2] == ("call", "collect") and isinstance(zs[2][0], tuple) and zs[2][0][:2] == ("call", "map") and zs[2][0][2][0] == C("iter", A(1))
             if not okz:
-                problems.append("the inverted vector is %s, not the z coordinates of the input in order" % show(zs)[:100])
+                unrec.append("the inverted vector %s is not of the modelled shape" % show(zs)[:60])
             za, zb = E(f, zips[0]["args"][0]), E(f, zips[0]["args"][1])
-            if za != C("iter", A(1)) or zb != zs:
+            if okz and (za != C("iter", A(1)) or zb != zs):
                 problems.append("points are zipped as (%s, %s): the inverses are not paired with their own points" % (show(za)[:60], show(zb)[:60]))
             if any(t["f"].get("name") in ("rev", "skip", "step_by") for _, t in f.calls()):
                 problems.append("an order-changing adaptor sits between the points and their inverses")
         if len(pclo) != 1:
-            problems.append("no closure building the affine points")
+            unrec.append("no closure building the affine points")
         else:
             c = pclo[0]
             nu = [t for _, t in c.calls() if t["f"].get("name") == "new_unchecked"][0]
@@ -645,7 +645,12 @@ def check_batchnorm(res, facts):
                 false_t, true_t = t_["tgts"][0], t_["else"]
                 if not (_reach_bb(c, true_t, ibb) and not _reach_bb(c, true_t, nbb) and _reach_bb(c, false_t, nbb)):
                     problems.append("identity / finite arms are attached to the wrong outcome of is_zero")
-        (rule.bad if problems else rule.ok)(key, "; ".join(problems) if problems else "z_i collected in order, batch-inverted, zipped with the points; finite point -> (X w^%d, Y w^%d), identity kept" % (ex, ey), f.loc)
+        if problems:
+            rule.bad(key, "; ".join(problems), f.loc)
+        elif unrec:
+            rule.noverdict(key, "shape not modelled (%s)" % "; ".join(unrec), f.loc)
+        else:
+            rule.ok(key, "z_i collected in order, batch-inverted, zipped with the points; finite point -> (X w^%d, Y w^%d), identity kept" % (ex, ey), f.loc)
 
 
 def check_afflift(res, facts):
